@@ -83,7 +83,7 @@ def model_step(m, op):
             m.cur = m.named[args[1]]
         m.ctx.append(snap)
         return None
-    if name in ("exit", "exit!"):
+    if name in ("exit", "exit!", "exit!k"):
         cur, stack = m.ctx.pop()
         m.cur, m.stack = cur, list(stack)
         return None
@@ -122,6 +122,7 @@ class C13System:
         if st.ctx:
             ops.append(["exit"])
             ops.append(["exit!"])
+            ops.append(["exit!k"])
         return ops
 
     def _compare(self, tr, mp, what, problems, op):
